@@ -18,37 +18,72 @@ theorem spanUntil_run (p : Nat → Bool) (t r : List Nat) (ht : ∀ b ∈ t, p b
     simp only [List.cons_append, spanUntil, ha, Bool.false_eq_true, if_false]
     rw [ih (fun b hb => ht b (List.mem_cons_of_mem _ hb))]
 
+/-- the modifier characters and the conversion character of a specification item -/
+def Item.parts : Item → Option (List Nat × Nat)
+  | .shw _ => some ([], 36)
+  | .ispec m c _ => some (m.text, c.byte)
+  | .fspec l c _ => some ((if l then [108] else []), c.byte)
+  | .lit _ => none
+  | .pct => none
+
+/-- the characters that may end a specification of the model / that may stand before the conversion character -/
+def convChars : List Nat := [36] ++ IConv.all.map IConv.byte ++ FConv.all.map FConv.byte
+def modChars : List Nat := [104, 108, 106, 122, 116, 113]
+
+theorem parts_spec (it : Item) (mods : List Nat) (cb : Nat) (h : it.parts = some (mods, cb)) :
+    it.fmt = 37 :: (mods ++ [cb]) ∧ it.seg = .spec it.fmt ∧ (∀ b ∈ mods, b ∈ modChars) ∧ cb ∈ convChars := by
+  cases it with
+  | shw v => simp only [Item.parts, Option.some.injEq, Prod.mk.injEq] at h; obtain ⟨rfl, rfl⟩ := h; simp [Item.fmt, Item.seg, convChars]
+  | ispec m c n =>
+    simp only [Item.parts, Option.some.injEq, Prod.mk.injEq] at h; obtain ⟨rfl, rfl⟩ := h
+    refine ⟨rfl, rfl, ?_, ?_⟩
+    · cases m <;> simp [IMod.text, modChars]
+    · cases c <;> simp [IConv.byte, convChars, IConv.all]
+  | fspec l c b =>
+    simp only [Item.parts, Option.some.injEq, Prod.mk.injEq] at h; obtain ⟨rfl, rfl⟩ := h
+    refine ⟨rfl, rfl, ?_, ?_⟩
+    · cases l <;> simp [modChars]
+    · cases c <;> simp [FConv.byte, convChars, FConv.all, IConv.all, IConv.byte]
+  | lit t => simp [Item.parts] at h
+  | pct => simp [Item.parts] at h
+
+theorem parts_none (it : Item) (h : it.parts = none) : (∃ t, it = .lit t) ∨ it = .pct := by
+  cases it <;> simp [Item.parts] at h ⊢
+
 /-- what follows a non-literal item starts with `%` -/
 theorem head_fmt_nonlit (it : Item) (h : ∀ t, it ≠ .lit t) : ∃ r, it.fmt = 37 :: r := by
   cases it with
   | lit t => exact absurd rfl (h t)
   | shw v => exact ⟨_, rfl⟩
-  | li n => exact ⟨_, rfl⟩
-  | ld n => exact ⟨_, rfl⟩
-  | lf b => exact ⟨_, rfl⟩
+  | ispec m c n => exact ⟨_, rfl⟩
+  | fspec l c b => exact ⟨_, rfl⟩
   | pct => exact ⟨_, rfl⟩
 
 structure ConvFacts (conv : List Nat) : Prop where
-  dollar : 36 ∈ conv
-  i : 105 ∈ conv
-  d : 100 ∈ conv
-  f : 102 ∈ conv
-  l : 108 ∉ conv
-  pct : 37 ∉ conv
+  ends : ∀ b ∈ convChars, conv.contains b = true
+  mods : ∀ b ∈ modChars, conv.contains b = false
+  pct : conv.contains 37 = false
 
 theorem convFacts_of_ok (conv : List Nat) (h : convOK conv = true) : ConvFacts conv := by
-  simp only [convOK, Bool.and_eq_true, Bool.not_eq_true', List.contains_eq_mem, decide_eq_true_eq, decide_eq_false_iff_not] at h
-  obtain ⟨⟨⟨⟨⟨h1, h2⟩, h3⟩, h4⟩, h5⟩, h6⟩ := h
-  exact ⟨h1, h2, h3, h4, h5, h6⟩
+  simp only [convOK, Bool.and_eq_true, List.all_eq_true, Bool.not_eq_true'] at h
+  refine ⟨fun b hb => h.1 b hb, fun b hb => h.2 b (by simp only [modChars] at hb; simp only [List.mem_cons]; right; simpa using hb), ?_⟩
+  exact h.2 37 (by simp)
 
-/-- `%l<c>` followed by anything: the specification ends at `c` -/
-theorem spanUntil_l (conv : List Nat) (C : ConvFacts conv) (c : Nat) (hc : c ∈ conv) (rest : List Nat) :
-    spanUntil (fun b => conv.contains b) (108 :: c :: rest) = ([108], c :: rest) := by
-  simp [spanUntil, C.l, hc]
+/-- `%<mods><c>` followed by anything: the specification ends at `c` -/
+theorem spanUntil_spec (conv : List Nat) (C : ConvFacts conv) (mods : List Nat) (cb : Nat) (hm : ∀ b ∈ mods, b ∈ modChars)
+    (hc : cb ∈ convChars) (rest : List Nat) :
+    spanUntil (fun b => conv.contains b) (mods ++ cb :: rest) = (mods, cb :: rest) :=
+  spanUntil_run _ mods (cb :: rest) (fun b hb => C.mods b (hm b hb)) (fun b r' h => by cases h; exact C.ends _ hc)
 
-theorem spanUntil_dollar (conv : List Nat) (C : ConvFacts conv) (rest : List Nat) :
-    spanUntil (fun b => conv.contains b) (36 :: rest) = ([], 36 :: rest) := by
-  simp [spanUntil, C.dollar]
+theorem segmentF_spec (conv : List Nat) (fuel a : Nat) (t : List Nat) (ha : a ≠ 37) :
+    segmentF conv (fuel + 1) (37 :: a :: t) =
+      match (spanUntil (fun b => conv.contains b) (a :: t)).2 with
+      | cv :: r'' => .spec (37 :: (spanUntil (fun b => conv.contains b) (a :: t)).1 ++ [cv]) :: segmentF conv fuel r''
+      | [] => [.open_ (37 :: (spanUntil (fun b => conv.contains b) (a :: t)).1)] := by
+  simp only [segmentF, ne_eq, not_true_eq_false, if_false]
+  split
+  · rename_i heq; simp only [List.cons.injEq] at heq; exact absurd heq.1 ha
+  · rfl
 
 /-- **segmentation**: the scanner cuts the rendered format of `its` into exactly the segments of `its` -/
 theorem segmentF_render (conv : List Nat) (C : ConvFacts conv) (its : List Item) : ∀ fuel, fmtOK its = true →
@@ -61,66 +96,76 @@ theorem segmentF_render (conv : List Nat) (C : ConvFacts conv) (its : List Item)
     | zero => omega
     | succ fuel =>
       simp only [List.flatMap_cons, List.length_append] at hlen
-      cases it with
-      | lit t =>
-        simp only [fmtOK, Bool.and_eq_true, Bool.not_eq_true', List.isEmpty_eq_false_iff, List.all_eq_true, bne_iff_ne, ne_eq] at hok
-        obtain ⟨⟨⟨hne, hno⟩, hadj⟩, hrest⟩ := hok
-        obtain ⟨c, t', rfl⟩ := List.exists_cons_of_ne_nil hne
-        have hc : c ≠ 37 := hno c List.mem_cons_self
-        have hspan : spanUntil (· == 37) ((c :: t') ++ its.flatMap Item.fmt) = (c :: t', its.flatMap Item.fmt) := by
-          apply spanUntil_run
-          · intro b hb; simpa using hno b hb
-          · intro b r' hbr
-            cases its with
-            | nil => simp at hbr
-            | cons it2 its2 =>
-              have hnl : ∀ t, it2 ≠ .lit t := by
-                intro t ht; subst ht; simp at hadj
-              obtain ⟨r, hr⟩ := head_fmt_nonlit it2 hnl
-              simp only [List.flatMap_cons, hr, List.cons_append, List.cons.injEq] at hbr
-              simp [← hbr.1]
-        simp only [List.flatMap_cons, Item.fmt, List.cons_append, segmentF, ne_eq, hc, not_false_eq_true, if_true, List.map_cons, Item.seg]
-        simp only [List.cons_append] at hspan
-        rw [hspan]
-        simp only [Item.fmt, List.length_cons] at hlen
-        rw [ih fuel hrest (by omega)]
-      | pct =>
-        simp only [fmtOK] at hok
-        simp only [List.flatMap_cons, Item.fmt, List.cons_append, List.nil_append, segmentF, ne_eq, not_true_eq_false, if_false, List.map_cons, Item.seg]
-        simp only [Item.fmt, List.length_cons, List.length_nil] at hlen
-        rw [ih fuel hok (by omega)]
-      | shw v =>
-        simp only [fmtOK] at hok
-        simp only [List.flatMap_cons, Item.fmt, List.cons_append, List.nil_append, segmentF, ne_eq, not_true_eq_false, if_false, List.map_cons, Item.seg]
-        simp only [Item.fmt, List.length_cons, List.length_nil] at hlen
-        rw [spanUntil_dollar conv C]
-        simp only [List.append_nil, List.cons_append, List.nil_append]
-        rw [ih fuel hok (by omega)]
-      | li n =>
-        simp only [fmtOK] at hok
-        simp only [List.flatMap_cons, Item.fmt, List.cons_append, List.nil_append, segmentF, ne_eq, not_true_eq_false, if_false, List.map_cons, Item.seg]
-        simp only [Item.fmt, List.length_cons, List.length_nil] at hlen
-        rw [spanUntil_l conv C 105 C.i]
-        simp only [List.cons_append, List.nil_append]
-        rw [ih fuel hok (by omega)]
-      | ld n =>
-        simp only [fmtOK] at hok
-        simp only [List.flatMap_cons, Item.fmt, List.cons_append, List.nil_append, segmentF, ne_eq, not_true_eq_false, if_false, List.map_cons, Item.seg]
-        simp only [Item.fmt, List.length_cons, List.length_nil] at hlen
-        rw [spanUntil_l conv C 100 C.d]
-        simp only [List.cons_append, List.nil_append]
-        rw [ih fuel hok (by omega)]
-      | lf b =>
-        simp only [fmtOK] at hok
-        simp only [List.flatMap_cons, Item.fmt, List.cons_append, List.nil_append, segmentF, ne_eq, not_true_eq_false, if_false, List.map_cons, Item.seg]
-        simp only [Item.fmt, List.length_cons, List.length_nil] at hlen
-        rw [spanUntil_l conv C 102 C.f]
-        simp only [List.cons_append, List.nil_append]
-        rw [ih fuel hok (by omega)]
+      cases hparts : it.parts with
+      | none =>
+        rcases parts_none it hparts with ⟨t, rfl⟩ | rfl
+        · simp only [fmtOK, Bool.and_eq_true, Bool.not_eq_true', List.isEmpty_eq_false_iff, List.all_eq_true, bne_iff_ne, ne_eq] at hok
+          obtain ⟨⟨⟨hne, hno⟩, hadj⟩, hrest⟩ := hok
+          obtain ⟨c, t', rfl⟩ := List.exists_cons_of_ne_nil hne
+          have hc : c ≠ 37 := hno c List.mem_cons_self
+          have hspan : spanUntil (· == 37) ((c :: t') ++ its.flatMap Item.fmt) = (c :: t', its.flatMap Item.fmt) := by
+            apply spanUntil_run
+            · intro b hb; simpa using hno b hb
+            · intro b r' hbr
+              cases its with
+              | nil => simp at hbr
+              | cons it2 its2 =>
+                have hnl : ∀ t, it2 ≠ .lit t := by
+                  intro t ht; subst ht; simp at hadj
+                obtain ⟨r, hr⟩ := head_fmt_nonlit it2 hnl
+                simp only [List.flatMap_cons, hr, List.cons_append, List.cons.injEq] at hbr
+                simp [← hbr.1]
+          simp only [List.flatMap_cons, Item.fmt, List.cons_append, segmentF, ne_eq, hc, not_false_eq_true, if_true, List.map_cons, Item.seg]
+          simp only [List.cons_append] at hspan
+          rw [hspan]
+          simp only [Item.fmt, List.length_cons] at hlen
+          rw [ih fuel hrest (by omega)]
+        · simp only [fmtOK] at hok
+          simp only [List.flatMap_cons, Item.fmt, List.cons_append, List.nil_append, segmentF, ne_eq, not_true_eq_false, if_false, List.map_cons, Item.seg]
+          simp only [Item.fmt, List.length_cons, List.length_nil] at hlen
+          rw [ih fuel hok (by omega)]
+      | some mc =>
+        obtain ⟨mods, cb⟩ := mc
+        obtain ⟨hfmt, hseg, hm, hcb⟩ := parts_spec it mods cb hparts
+        have hok' : fmtOK its = true := by
+          cases it <;> first | (simp [Item.parts] at hparts; done) | (simpa [fmtOK] using hok)
+        rw [hfmt] at hlen
+        simp only [List.length_cons, List.length_append, List.length_nil] at hlen
+        simp only [List.flatMap_cons, List.map_cons, hseg, hfmt, List.cons_append, List.append_assoc, List.nil_append]
+        -- the byte after `%` is not `%`: a modifier or a conversion character
+        have hspan := spanUntil_spec conv C mods cb hm hcb (its.flatMap Item.fmt)
+        have hhead : ∃ a t, mods ++ cb :: its.flatMap Item.fmt = a :: t ∧ a ≠ 37 := by
+          cases mods with
+          | nil =>
+            refine ⟨cb, _, rfl, ?_⟩
+            intro h; have := C.ends cb hcb; rw [h, C.pct] at this; exact absurd this (by decide)
+          | cons a t =>
+            refine ⟨a, _, rfl, ?_⟩
+            intro h
+            have := hm a List.mem_cons_self
+            rw [h] at this; simp [modChars] at this
+        obtain ⟨a, t, hat, ha⟩ := hhead
+        rw [hat] at hspan ⊢
+        rw [segmentF_spec conv fuel a t ha, hspan]
+        simp only
+        rw [ih fuel hok' (by omega)]
+        simp
 
 theorem segment_render (conv : List Nat) (C : ConvFacts conv) (its : List Item) (hok : fmtOK its = true) :
     segment conv (its.flatMap Item.fmt) = its.map Item.seg :=
   segmentF_render conv C its _ hok (by omega)
+
+theorem lookup_ispec (m : IMod) (c : IConv) : allISpecs.lookup (ispecFmt m c) = some (m, c) := by
+  cases m <;> cases c <;> decide
+
+theorem lookup_fspec (l : Bool) (c : FConv) : allFSpecs.lookup (fspecFmt l c) = some (l, c) := by
+  cases l <;> cases c <;> decide
+
+theorem ispecFmt_ne_dollar (m : IMod) (c : IConv) : ispecFmt m c ≠ [37, 36] := by
+  cases m <;> cases c <;> decide
+
+theorem fspecFmt_ne_dollar (l : Bool) (c : FConv) : fspecFmt l c ≠ [37, 36] := by
+  cases l <;> cases c <;> decide
 
 /-- the arguments of a format: the values its items carry -/
 theorem itemsOf_render (its : List Item) : itemsOf (its.map Item.seg) (its.filterMap Item.val?) = some its := by
@@ -135,9 +180,8 @@ theorem itemsOf_render (its : List Item) : itemsOf (its.map Item.seg) (its.filte
       have : (Item.pct :: its).filterMap Item.val? = its.filterMap Item.val? := rfl
       simp [Item.seg, itemsOf, this, ih]
     | shw v => simp [Item.seg, Item.val?, itemsOf, ih, specItem, Item.fmt]
-    | li n => simp [Item.seg, Item.val?, itemsOf, ih, specItem, Item.fmt]
-    | ld n => simp [Item.seg, Item.val?, itemsOf, ih, specItem, Item.fmt]
-    | lf b => simp [Item.seg, Item.val?, itemsOf, ih, specItem, Item.fmt]
+    | ispec m c n => simp [Item.seg, Item.val?, itemsOf, ih, specItem, Item.fmt, lookup_ispec, ispecFmt_ne_dollar]
+    | fspec l c b => simp [Item.seg, Item.val?, itemsOf, ih, specItem, Item.fmt, lookup_fspec, fspecFmt_ne_dollar]
 
 /-- two values of the same Cello type -/
 def sameKind : Val → Val → Bool
@@ -148,7 +192,8 @@ def sameKind : Val → Val → Bool
 
 theorem specItem_shape (spec : List Nat) (v w : Val) (h : sameKind v w = true) :
     (specItem spec v).map Item.shape = (specItem spec w).map Item.shape := by
-  cases v <;> cases w <;> simp [sameKind] at h <;> simp only [specItem] <;> repeat' split <;> simp_all [Item.shape]
+  cases v <;> cases w <;> simp [sameKind] at h <;> simp only [specItem] <;> split <;>
+    simp [Item.shape, Option.map_map, Function.comp_def]
 
 def sameKinds : List Val → List Val → Bool
   | [], [] => true
